@@ -37,8 +37,19 @@ for d in sorted(glob.glob(os.path.join(VERIF, "seeded", "C*"))):
         print(rows[-1], flush=True)
     finally:
         sh("git -C /repo worktree remove --force %s" % wt); shutil.rmtree(wt, ignore_errors=True)
-if not sys.argv[1:]:
-    with open(os.path.join(VERIF, "seeded", "SUMMARY.md"), "w") as f:
-        f.write("# Seeded changes vs. the checks (re-run at /repo %s)\n\n| change | property | outcome | reported by |\n|---|---|---|---|\n" % head)
-        for r in rows:
-            f.write("| %s | %s | %s | %s |\n" % r)
+# SUMMARY.md is assembled from every meta.json's checks_now (so partial / parallel runs add up)
+allrows = []
+for d in sorted(glob.glob(os.path.join(VERIF, "seeded", "C*"))):
+    m = json.load(open(os.path.join(d, "meta.json")))
+    cn = m.get("checks_now")
+    if not cn:
+        allrows.append((os.path.basename(d), m["property"], "not re-run", "", "")); continue
+    if cn.get("error"):
+        allrows.append((os.path.basename(d), m["property"], "n/a", cn["error"], cn.get("repo_head", ""))); continue
+    viol = cn.get("violation_lines", [])
+    by = sorted(set(("stand-in (failing input)" if "standin" in v else ("kani (counterexample)" if any(k in v for k in ("-ops-", "-headers-", "-prec-", "-codec-", "-pcapcodec-")) else "verus (failed obligation)")) for v in viol))
+    allrows.append((os.path.basename(d), m["property"], {0: "MISSED (exit 0)", 1: "caught", 2: "undecided (exit 2)"}.get(cn.get("rc"), str(cn.get("rc"))), ", ".join(by), cn.get("repo_head", "")))
+with open(os.path.join(VERIF, "seeded", "SUMMARY.md"), "w") as f:
+    f.write("# Seeded changes vs. the checks (each re-run against /repo HEAD with the change applied in a scratch worktree)\n\n| change | property | outcome | reported by | /repo |\n|---|---|---|---|---|\n")
+    for r in allrows:
+        f.write("| %s | %s | %s | %s | %s |\n" % r)
